@@ -19,7 +19,8 @@ RULE = ('pairs (source, target) of geometry recipes (gens/geo.py: rectangular, B
         'with and without tables) in surface, bottom and interior blocks, named by category + column, transferred onto a fresh '
         'copy of the same geometry with preserve_generation_totals and rename_generators on/off, with and without '
         'top/bottom-generator lists. Non-trivial = geometries differ (or atmosphere types differ) and at least one block needed the '
-        'above-surface correction or a non-identity column/layer choice; for models: at least one generator; distinct = case JSON.')
+        'above-surface correction or a non-identity column/layer choice; for models: at least one generator; distinct = case JSON.'
+        ' Also: sources that served in a mapping and were then translated / rotated in place; top / bottom generators named after another column; incon variables as numpy arrays in half of the cases.')
 ASSUMPTIONS = ['"corresponding atmosphere block": single->single; per-column->per-column: the block over the nearest source column; '
                'single source->per-column target: the single source block; per-column source->single target: any atmosphere block of the source',
                'when the source has no atmosphere blocks the value for an atmosphere block is not judged (only that the call returns a total map)',
@@ -283,7 +284,27 @@ def run_pair(case, R):
                 tcol = tgt.column_name(name)
                 if tcol in coltied: continue
                 exp = src.block_name(src.layerlist[0].name, colmap[tcol].name); exp_ok = got == exp
-            else: exp_ok = got in set(src_atm); exp = 'one of the source atmosphere blocks'
+            else:
+                # one atmosphere block over the whole target, one per column in the source: "corresponding" = over the source
+                # column nearest to where the target is - its centre, by any of the usual definitions (the statement does not
+                # pick one): attribute, mean of column centres, middle of the bounding box, area-weighted centroid
+                import numpy as np
+                cc = np.array([[float(c.centre[0]), float(c.centre[1])] for c in tgt.columnlist])
+                ar = np.array([abs(float(c.area)) for c in tgt.columnlist])
+                cands = [cc.mean(axis=0), 0.5 * (cc.min(axis=0) + cc.max(axis=0)), (cc * ar[:, None]).sum(axis=0) / ar.sum()]
+                try: cands.append(np.array([float(v) for v in tgt.centre]))
+                except Exception: pass
+                b = tgt.bounds
+                cands.append(0.5 * (np.array([float(v) for v in b[0]]) + np.array([float(v) for v in b[1]])))
+                sc = np.array([[float(c.centre[0]), float(c.centre[1])] for c in src.columnlist])
+                okcols = set()
+                for q in cands:
+                    dd = np.hypot(sc[:, 0] - q[0], sc[:, 1] - q[1])
+                    for k in np.nonzero(dd <= dd.min() * (1 + 1e-9) + 1e-12)[0]: okcols.add(src.columnlist[int(k)].name)
+                okblocks = set(src.block_name(src.layerlist[0].name, cn) for cn in okcols)
+                exp_ok = got in okblocks
+                exp = 'the atmosphere block over a source column nearest the centre of the target (%s)' % sorted(okblocks)[:4]
+                if len(okcols) > 1: R.label('atmosphere:target-centre-definitions-disagree')
             if not R.check(exp_ok, 'block_mapping:atmosphere', 'atmosphere block %r -> %r expected %s (atmosphere types %d -> %d)' % (
                     name, got, exp, sa, ta)): break
         if identity:
